@@ -101,9 +101,45 @@ class Layouts:
             return ("unknown", "combinator %s" % n)
         return ("unknown", canon(v)[:200])
 
+    def prim_mode(self, c):
+        """complete / streaming, read from the instance graph (nom-derive's <uN as Parse> impls wrap nom::number::streaming)."""
+        if not hasattr(self, "_modes"):
+            self._modes = {}
+            byid = {}
+            for n in self.prog.nodes:
+                byid.setdefault(n["id"], n)
+            self._byid = byid
+        if c.id in self._modes:
+            return self._modes[c.id]
+        n = self._byid.get(c.id)
+        mode = "unknown"
+        if n is not None:
+            seen = set()
+            st = [n["i"]]
+            modes = set()
+            while st and len(seen) < 60:
+                x = st.pop()
+                if x in seen:
+                    continue
+                seen.add(x)
+                pth = self.prog.nodes[x]["path"]
+                if "::streaming::" in pth:
+                    modes.add("streaming")
+                elif "::complete::" in pth:
+                    modes.add("complete")
+                st.extend(self.prog.nodes[x]["callees"])
+            if len(modes) == 1:
+                mode = modes.pop()
+            elif modes:
+                mode = "mixed"
+        self._modes[c.id] = mode
+        return mode
+
     def term_of_fn(self, c, extra):
         p = prim_of(c)
         if p:
+            if p[1].startswith("<"):
+                p = (p[0], p[1], p[2], p[3], self.prim_mode(c))
             return p
         n = c.npath
         m = re.match(r"^<std::vec::Vec<(.+)> as nom_derive::Parse<.*>>::(parse_be|parse|parse_le)$", c.id)
